@@ -685,6 +685,7 @@ def run(ctx: Ctx):
                 ctx.fail("corr_model", f"model:{case.key()}", exc_obs(impl["exc"]) if impl["exc"] else "ok",
                          "the model of the defect witness and the implementation disagree", {"reproduce": case.py()},
                          found_input=False)
+    nviol = 0
     for (case, impl, orc, verdict, cls, wit), idx in zip(meta, range(len(meta))):
         if wit is not None:
             continue
@@ -696,6 +697,10 @@ def run(ctx: Ctx):
             continue
         if cls is not None and known_ok.get(cls) and idx not in bad:
             ctx.count(f"known-defect-instances:{cls}")
+            continue
+        nviol += 1
+        if nviol > 8:   # every further failing input is only counted
+            ctx.count("further_failing_inputs")
             continue
         ctx.fail("local_grid_exact" if idx not in bad else "corr_model", case.key(), verdict[0],
                  f"{case.py()} {verdict[1]}", {"reproduce": case.py(), "expected_entries": len(orc),
